@@ -39,5 +39,9 @@ func SentinelMiddleware(opts ...Option) ghttp.HandlerFunc {
 		defer entry.Exit()
 
 		r.Middleware.Next()
+		// goframe keeps the error a handler returned (and a recovered handler panic) on the request
+		if err := r.GetError(); err != nil {
+			api.TraceError(entry, err)
+		}
 	}
 }
